@@ -833,3 +833,12 @@ package frugal
 //@ func lib.fAdapterTransport.readFrame
 //@   ensures err == nil ==> fresh(result)
 //@   modifies *
+
+// HTTP: one request, one Process call on buffers of the request's own (C14: a reply never contains bytes
+// of another request); the reply written is the encoding of exactly that output buffer.
+//@ immutable thrift.TMemoryBuffer.Buffer
+//@ func lib.NewFrugalHandlerFunc$1
+//@   ensures ncalls("lib.FProcessor.Process") <= 1
+//@   ensures ncalls("lib.FProcessor.Process") == 1 ==> fresh(outBuf) && fresh(output) && output.Buffer == outBuf
+//@   ensures ncalls("lib.FProcessor.Process") == 1 ==> cast(callarg("lib.FProtocolFactory.GetProtocol", 1, 1), "thrift.TMemoryBuffer") == output && callarg("lib.FProcessor.Process", 0, 2) == callret("lib.FProtocolFactory.GetProtocol", 1, 0) && callarg("lib.FProcessor.Process", 0, 1) == callret("lib.FProtocolFactory.GetProtocol", 0, 0)
+//@   modifies *
